@@ -1081,6 +1081,7 @@ func (x *Exec) chanBounds(st *State, ch Term) {
 	hl := x.heapGet(st, "Chan_len", "(Array Int Int)")
 	hcap := x.heapGet(st, "Chan_cap", "(Array Int Int)")
 	x.assume(st, and(sx("<=", "0", sx("select", hl, ch)), sx("<=", sx("select", hl, ch), sx("select", hcap, ch))))
+	x.assumed["Go channel semantics as modelled: 0 <= len(ch) <= cap(ch); len and cap of a nil channel are 0; a non-blocking receive takes its default case only when the buffer is empty; a non-blocking send succeeds only when the buffer has room; channel CONTENTS are not modelled (length, capacity and the closed flag only)"] = true
 	// len and cap of a nil channel are 0
 	x.assume(st, implies(eq(ch, "0"), eq(sx("select", hcap, ch), "0")))
 }
